@@ -142,7 +142,21 @@ def make_agent(kind: str, script, n_actions: int, ctl: threads.Controller, seed:
     return G(n_actions=n_actions, alpha=-1, eps=0.3 if kind == "eps" else 0.0, random_state=seed)
 
 
-def run_controlled(plan, losses, script, schedule, *, agent_kind="scripted", seed=0, rng=None):
+class _PlanLoss:
+    """loss 'function' of the calibrate-level runs: every point of batch b gets losses[b]"""
+
+    def __init__(self, losses, counter):
+        self.losses, self.counter = losses, counter
+
+    def compute_loss(self, sim_data_ensemble, real_data):  # noqa: ARG002
+        return float(self.losses[self.counter[0]])
+
+
+def _plan_model(theta, N, seed):  # noqa: N803, ARG001
+    return np.zeros((N, 1))
+
+
+def run_controlled(plan, losses, script, schedule, *, agent_kind="scripted", seed=0, rng=None, via_calibrate=False, prefer=None):
     """one controlled execution; returns {"ev": [...], "grants": [...], "exact": bool, "script": [...]}"""
     from black_it.samplers.halton import HaltonSampler
     from black_it.samplers.random_uniform import RandomUniformSampler
@@ -159,12 +173,52 @@ def run_controlled(plan, losses, script, schedule, *, agent_kind="scripted", see
             sched = threads.make_scheduler(samplers, agent, env, random_state=seed)
         state = {"error": None}
 
+        cal = None
+        bcount = [0]
+        if via_calibrate:
+            # the same exchange driven by Calibrator.calibrate (one call per session): seeding, sampling, model and loss included
+            from black_it.calibrator import Calibrator
+
+            ctl.ghost["park_begin"] = True
+            og, ou = sched.get_next_sampler, sched.update
+
+            def get_next():
+                ctl.ghost["batch"] = bcount[0]
+                ctl.ghost.pop("got", None)
+                smp = og()
+                idx = [i for i, x in enumerate(sched.samplers) if x is smp][0]
+                g = ctl.ghost.pop("got", None)
+                if g is not None:
+                    ctl.log({"e": "get", "cid": g["cid"], "a": g["a"], "batch": bcount[0], "sampler": idx})
+                return smp
+
+            def upd(batch_id, new_params, new_losses, new_simulated_data):
+                mark = len(ctl.events)
+                ou(batch_id, new_params, new_losses, new_simulated_data)
+                if not any(e["e"] == "out" for e in ctl.events[mark:]):
+                    ctl.log({"e": "boot", "batch": bcount[0], "best": int(losses[bcount[0]])})
+                bcount[0] += 1
+
+            sched.get_next_sampler, sched.update = get_next, upd
+            with quiet():
+                cal = Calibrator(loss_function=_PlanLoss(losses, bcount), real_data=np.zeros((4, 1)), model=_plan_model,
+                                 parameters_bounds=[[0.0], [1.0]], parameters_precision=[0.001], ensemble_size=1,
+                                 scheduler=sched, random_state=seed, n_jobs=1, saving_folder=None, verbose=False)
+
         def cal_body():
             ctl.bind("cal")
             b = 0
             try:
                 for n in plan:
                     ctl.log({"e": "sess"})
+                    if cal is not None:
+                        cal.calibrate(n)
+                        dr = ctl.ghost.pop("drained", 0)
+                        if dr:
+                            ctl.log({"e": "drain", "n": dr})
+                        ctl.log({"e": "idle", "actq": env._out_queue.qsize(), "outq": env._in_queue.qsize(),  # noqa: SLF001
+                                 "alive": bool("agent" in ctl.st and not ctl.st["agent"]["done"])})
+                        continue
                     with sched.session():
                         for _ in range(n):
                             ctl.ghost["batch"] = b
@@ -222,13 +276,14 @@ def run_controlled(plan, losses, script, schedule, *, agent_kind="scripted", see
                         break
             if choice is None:
                 exact = exact and i >= len(schedule) and False
-                choice = rng.choice(sorted(en))[0]
+                pref = [n for n, _ in en if n == prefer]
+                choice = pref[0] if pref else rng.choice(sorted(en))[0]
             ctl.grant(choice)
         t.join(5)
         left = [x for x in schedule[i:] if not x[2]]
         exact = exact and not left
         return {"ev": ctl.events, "grants": ctl.grants, "exact": exact, "script": list(script), "plan": plan,
-                "losses": [int(x) for x in losses], "agent": agent_kind}
+                "losses": [int(x) for x in losses], "agent": agent_kind, "via": bool(via_calibrate), "seed": seed}
     finally:
         threads.CTL = None
         threads.restore_module()
@@ -447,7 +502,7 @@ def run(tier: str) -> int:
     n_walks = 300 if tier == "quick" else 6000
     paths += [g.random_path(rng) for _ in range(n_walks)]
     script = [0, 1, 0]
-    runs, covered, exact_n = [], set(), 0
+    runs, covered, exact_n, n_cal = [], set(), 0, 0
     with quiet():
         for pi, path in enumerate(paths):
             plan, sched = g.to_schedule(path)
@@ -466,8 +521,18 @@ def run(tier: str) -> int:
             if r["exact"]:
                 exact_n += 1
                 covered |= set(path)
+            if pi % 7 == 3 and sum(plan):
+                # the exchange as Calibrator.calibrate drives it (one call per session), epsilon-greedy agent, under the two extreme
+                # schedules (agent thread always first / calibration thread always first): the same samplers must run
+                sd = rng.randrange(10**6)
+                a = run_controlled(plan, losses, script, [], agent_kind="eps", seed=sd, rng=rng, via_calibrate=True, prefer="agent")
+                b2 = run_controlled(plan, losses, script, [], agent_kind="eps", seed=sd, rng=rng, via_calibrate=True, prefer="cal")
+                b2["ref"] = [e["a"] for e in a["ev"] if e["e"] == "get"]
+                a["exact"] = b2["exact"] = False
+                runs += [a, b2]
+                n_cal += 1
     chk.evaluations = len(runs)
-    chk.extra.update({"graph_states": len(g.nodes), "graph_edges": len(g.edges), "edge_cover_paths": n_cover,
+    chk.extra.update({"calibrate_level_pairs": n_cal, "graph_states": len(g.nodes), "graph_edges": len(g.edges), "edge_cover_paths": n_cover,
                       "random_walks": n_walks, "schedules_replayed_exactly": exact_n, "schedules_diverged": len(runs) - exact_n,
                       "graph_edges_visited_by_real_executions": len(covered),
                       "graph_states_visited_by_real_executions": len({s for s, _, _ in covered} | {d for _, d, _ in covered})})
@@ -507,7 +572,8 @@ def _validate(chk: Check, runs, rule: str) -> int:
         key = f"{'deadlock' if ev.get('e') == 'deadlock' else w.split(':')[0]}"
         chk.violation(key, f"{w} at event {why['at']} ({ev.get('e')}) of a controlled execution, sessions {r['plan']}",
                       {"plan": r["plan"], "losses": r["losses"], "script": r["script"], "agent": r["agent"],
-                       "grants": r["grants"], "events": r["ev"], "tlc": why})
+                       "grants": r["grants"], "events": r["ev"], "tlc": why, "via": r.get("via", False), "seed": r.get("seed", 0),
+                       "ref": r.get("ref")})
     return chk.finish(rule)
 
 
@@ -523,5 +589,8 @@ def replay(rep: dict) -> int:
     chk = Check("C10", "quick")
     sched = [(t, k, False) for t, k in rep["grants"]]
     with quiet():
-        r = run_controlled(rep["plan"], rep["losses"], rep["script"], sched, agent_kind=rep["agent"], seed=0)
+        r = run_controlled(rep["plan"], rep["losses"], rep["script"], sched, agent_kind=rep["agent"], seed=rep.get("seed", 0),
+                           via_calibrate=rep.get("via", False))
+    if rep.get("ref"):
+        r["ref"] = rep["ref"]
     return _validate(chk, [r], "replay of a stored schedule")
